@@ -33,6 +33,7 @@ inductive FE where
   | cond (t : FE) (a : FE) (b : FE)                 -- (t ? a : b)
   | protoOf (e : FE)                                -- Object.getPrototypeOf(e)
   | regex                                           -- the regular expression literal /x/
+  | fnCtor (f : FE)                                 -- Function("<body of f>") for a parameterless, nameless f
   | wproto (k : String)                             -- String.prototype / Number.prototype / Boolean.prototype / Object.prototype
   | defAcc (o : FE) (p : String) (t : String)       -- Object.defineProperty(o, "p", {get: <logs G t, returns "v"+t>,
                                                     --   set: <logs S t and the value>, enumerable: false, configurable: true})
